@@ -117,14 +117,19 @@ Definition div_rounded_spec (m : mode) (x y : dec) (n : Z) : sres :=
   else if is_zero x then SVal DZERO
   else classify (rndq m (coeff x * 10 ^ (n + nfd y)) (coeff y * 10 ^ nfd x)) n.
 
-(* the integer multiple k * q nearest to x; any representation of that value *)
+(* the integer multiple k * q nearest to x, in any representation of that value with
+   at most q's fractional digits.  Failure is required when the value is not
+   representable at all, and permitted when its coefficient at q's scale does not fit
+   (the result is formed by a multiplication at that scale, cf. C02) *)
 Definition quantize_spec (m : mode) (x q : dec) : sres :=
   if is_zero q then SFail
   else
     let k := rndq m (coeff x * 10 ^ nfd q) (coeff q * 10 ^ nfd x) in
     let c := k * coeff q in
     if Z.abs c <=? MAXC then SValue c (nfd q)
-    else if c =? MINC then SValueOrFail c (nfd q) else SFail.
+    else
+      let '(c', _) := strip 18 c (nfd q) in
+      if (Z.abs c' <=? MAXC) || (c =? MINC) then SValueOrFail c (nfd q) else SFail.
 
 (* ---------- C05 ---------- *)
 Definition round_spec (m : mode) (d : dec) (n : Z) : option dec :=
